@@ -648,6 +648,11 @@ func ruleNoErrorSwallow(c *Ctx, rule string, pkgs ...string) {
 				return true
 			}
 			n++
+			// `_ = x.Close()` spells out what the bare call statement `x.Close()` did already: a close has no result
+			// that could be mistaken for an answer
+			if sig.Results().Len() == 1 && strings.HasPrefix(strings.ToLower(fn.Name()), "close") {
+				return true
+			}
 			for i, l := range as.Lhs {
 				if id, ok := l.(*ast.Ident); ok && id.Name == "_" && isErrorType(sig.Results().At(i).Type()) {
 					k++
